@@ -155,6 +155,13 @@ def correspond(ctx, corr):
         if ans != want:
             corr.violate("event:retry", "retry %d %s" % (d, cc.map_tok(m)), want, ans,
                          "retry_decode differs from decoding the frame with the map")
+        elif r is not None:
+            # class, frame and text agree; so must every decoded field (the instance type of an event of an
+            # unimplemented type is carried by no bit of the frame and by no part of the text)
+            fo, fw = obs_of(r), obs_of(direct)
+            if fo != fw:
+                corr.violate("event:retry-fields", "retry %d %s" % (d, cc.map_tok(m)), fw, fo,
+                             "retry_decode yields other fields than decoding the frame with the map")
         lines.append("retry %d %s" % (d, cc.map_tok(m))); impl.append(ans)
     # ---- mapper add_type / get_type through the three argument forms ----
     mods = {1: pushbutton, 3: occupancy, 4: light}
